@@ -119,6 +119,13 @@ func ensembleCodes() []string {
 // order of the rebuilt sum after primitive's sort.Slice (the model's oracle) and the
 // final chain.
 func stagewise(cfg config, n *big.Int) (oracle dict.Sum, final addchain.Chain, ok bool) {
+	oracle, final, _, ok = stagewiseDS(cfg, n)
+	return
+}
+
+// stagewiseDS also returns the `c01ds` line: the input and output of the dictsumchain call (the driver runs
+// the function as translated from dict.go on the same sum)
+func stagewiseDS(cfg config, n *big.Int) (oracle dict.Sum, final addchain.Chain, ds []string, ok bool) {
 	var sum dict.Sum
 	var c addchain.Chain
 	var err error
@@ -128,7 +135,7 @@ func stagewise(cfg config, n *big.Int) (oracle dict.Sum, final addchain.Chain, o
 		sum.SortByExponent()
 		c, err = cfg.seq.FindSequence(sum.Dictionary())
 		if err != nil {
-			return nil, nil, false
+			return nil, nil, nil, false
 		}
 	case "runs":
 		sum = dict.RunLength{T: 0}.Decompose(n)
@@ -139,24 +146,26 @@ func stagewise(cfg config, n *big.Int) (oracle dict.Sum, final addchain.Chain, o
 		}
 		lc, err := cfg.seq.FindSequence(lengths)
 		if err != nil {
-			return nil, nil, false
+			return nil, nil, nil, false
 		}
 		c, err = dict.RunsChain(lc)
 		if err != nil {
-			return nil, nil, false
+			return nil, nil, nil, false
 		}
 	default:
-		return nil, nil, false
+		return nil, nil, nil, false
 	}
 	out, pruned, err := dict.VerifPrimitive(sum, c)
 	if err != nil {
-		return nil, nil, false
+		return nil, nil, nil, false
 	}
 	if len(sum) > 1 {
 		oracle = out
 	}
 	dc := dict.VerifDictSumChain(out)
-	c01LastDS = []string{"c01ds", encTerms(out), encInts(dc)}
+	if len(out) > 0 {
+		ds = []string{"c01ds", encTerms(out), encInts(dc)}
+	}
 	all := append(append(addchain.Chain{}, pruned...), dc...)
 	sort.Slice(all, func(i, j int) bool { return all[i].Cmp(all[j]) < 0 })
 	for _, x := range all {
@@ -167,22 +176,14 @@ func stagewise(cfg config, n *big.Int) (oracle dict.Sum, final addchain.Chain, o
 	if strings.HasPrefix(cfg.code, "opt/") {
 		final, err = opt.Optimize(final)
 		if err != nil {
-			return nil, nil, false
+			return nil, nil, nil, false
 		}
 	}
-	return oracle, final, true
+	return oracle, final, ds, true
 }
 
-// c01LastDS: the input and output of the last dictsumchain call made by stagewise (the driver runs the
-// function as translated from dict.go on the same sum)
-var c01LastDS []string
-
 func c01Case(g *Gen, cfg config, n *big.Int) {
-	c01LastDS = nil
-	g.Line(c01Fields(cfg, n)...)
-	if c01LastDS != nil && c01LastDS[1] != "" && c01LastDS[1] != "-" {
-		g.Line(c01LastDS...)
-	}
+	g.Parallel([]func() []string{func() []string { return c01Fields(cfg, n) }})
 	g.Count(cfg.kind)
 }
 
@@ -211,11 +212,13 @@ func c01Fields(cfg config, n *big.Int) []string {
 	}
 	oracle := "-"
 	stage := "1"
+	var ds []string
 	if cfg.kind == "dict" || cfg.kind == "runs" {
 		var o dict.Sum
 		var fin addchain.Chain
 		okS := false
-		safe(func() { o, fin, okS = stagewise(cfg, new(big.Int).Set(before)) })
+		_ = ds
+		safe(func() { o, fin, ds, okS = stagewiseDS(cfg, new(big.Int).Set(before)) })
 		if okS {
 			oracle = encTerms(o)
 			stage = b01(r.Chain != nil && equalInts(fin, r.Chain))
@@ -223,7 +226,11 @@ func c01Fields(cfg config, n *big.Int) []string {
 			stage = b01(r.Chain == nil)
 		}
 	}
-	return []string{"c01", cfg.code, before.String(), oracle, out, prog, b01(endok), b01(unch), b01(det), stage}
+	line := []string{"c01", cfg.code, before.String(), oracle, out, prog, b01(endok), b01(unch), b01(det), stage}
+	if ds != nil {
+		line = append(append(line, "\n"), ds...)
+	}
+	return line
 }
 
 func genC01(g *Gen) {
